@@ -155,6 +155,8 @@ pub enum Instr {
     SetName { v: u8, name: String },
     Order { order: Vec<u32>, seq: bool },
     NodeCount { a: Reg },
+    /// C12: `count` seeded operations on `Natural` numbers against the reference bignum
+    NatOps { seed: u64, count: u8 },
     EvalAll { a: Reg },
     // ---- boolean kinds ----
     Const { d: Reg, val: bool },
@@ -200,6 +202,8 @@ pub enum Instr {
     TConst { d: Reg, val: u8 },
     TVar { d: Reg, v: u8 },
     TNot { d: Reg, a: Reg },
+    /// edge-level API: `TVLFunction::not_edge_owned` on a cloned edge
+    TNotEdgeOwned { d: Reg, a: Reg },
     TBin { d: Reg, op: BinOp, a: Reg, b: Reg },
     TIte { d: Reg, a: Reg, b: Reg, c: Reg },
     /// which: 0 = all three (t,u,f) into d,d2,d3; 1 = t, 2 = u, 3 = f
@@ -214,7 +218,7 @@ impl Instr {
             Clone { a, .. } | Drop { a } | NodeCount { a } | EvalAll { a } | Not { a, .. } | NotOwned { a, .. }
             | Cof { a, .. } | SatValid { a } | Restrict { a, .. } | Quantify { a, .. } | Subst { a, .. }
             | PickCube { a, .. } | PickCubeDd { a, .. } | PickCubeDdSet { a, .. } | PickUniform { a, .. }
-            | SatCount { a, .. } | ZUn { a, .. } | NRestrict { a, .. } | TNot { a, .. } | TCof { a, .. } => vec![*a],
+            | SatCount { a, .. } | ZUn { a, .. } | NRestrict { a, .. } | TNot { a, .. } | TNotEdgeOwned { a, .. } | TCof { a, .. } => vec![*a],
             Bin { a, b, .. } | ApplyQuant { a, b, .. } | ZBin { a, b, .. } | NBin { a, b, .. } | TBin { a, b, .. } => vec![*a, *b],
             Ite { a, b, c, .. } | TIte { a, b, c, .. } => vec![*a, *b, *c],
             NIte { c, t, e, .. } => vec![*c, *t, *e],
@@ -248,6 +252,7 @@ impl Instr {
                 | PickCube { .. }
                 | PickUniform { .. }
                 | SatCount { .. }
+                | NatOps { .. }
                 | ZConst { .. }
                 | TConst { .. }
         )
